@@ -42,10 +42,14 @@ type op struct {
 // again (whether old weights survive a delete is not covered by the statement).
 func genHistory(rng *rand.Rand, live, dead []uint64, hist string, weights bool) []op {
 	var seqs [][]op
+	// weighted-tombstones: every store gets explicit weights, the removed ones keep their weight records
+	// (DeleteStore removes the store record only), so weight keys of stores that are gone lie between
+	// the weight keys of live ones
+	always := hist == "weighted-tombstones"
 	for _, id := range live {
 		var s []op
 		s = append(s, op{'S', id, 0})
-		if weights && rng.Intn(2) == 0 {
+		if weights && (always || rng.Intn(2) == 0) {
 			s = append(s, op{'W', id, 0})
 		}
 		if hist == "overwrite" || hist == "mixed" || hist == "unflushed-delete" {
@@ -69,7 +73,7 @@ func genHistory(rng *rand.Rand, live, dead []uint64, hist string, weights bool) 
 	}
 	for _, id := range dead {
 		s := []op{{'S', id, 0}}
-		if weights && rng.Intn(2) == 0 {
+		if weights && (always || rng.Intn(2) == 0) {
 			s = append(s, op{'W', id, 0})
 		}
 		if rng.Intn(3) == 0 {
@@ -549,6 +553,9 @@ func histIDs(rng *rand.Rand, sp Spec) (live, dead []uint64) {
 	if sp.Hist == "delete" || sp.Hist == "mixed" || sp.Hist == "unflushed-delete" {
 		nd = 1 + rng.Intn(sp.N/3+3)
 	}
+	if sp.Hist == "weighted-tombstones" {
+		nd = 1 + sp.N/4 + rng.Intn(sp.N/2+2)
+	}
 	ids := genIDs(rng, sp.IDGen, sp.N+nd)
 	return ids[:sp.N], ids[sp.N:]
 }
@@ -562,6 +569,9 @@ func (x *runner) runStores(sp Spec) {
 		return
 	}
 	defer b.close()
+	if sp.Seed&1 == 0 {
+		surround(b, rand.New(rand.NewSource(sp.Seed^0x5bd1e995)), false, true)
+	}
 	live, dead := histIDs(rng, sp)
 	ops := genHistory(rng, live, dead, sp.Hist, true)
 	must := map[uint64]item{}
@@ -711,6 +721,9 @@ func (x *runner) runRegions(sp Spec) {
 		return
 	}
 	defer b.close()
+	if sp.Seed&1 == 0 {
+		surround(b, rand.New(rand.NewSource(sp.Seed^0x5bd1e995)), true, false)
+	}
 	must, may, ok := x.regionHistory(rng, b, sp)
 	if !ok || !x.finishRS(b, sp) {
 		return
@@ -757,6 +770,9 @@ func (x *runner) runPrune(sp Spec) {
 		return
 	}
 	defer b.close()
+	if sp.Seed&1 == 0 {
+		surround(b, rand.New(rand.NewSource(sp.Seed^0x5bd1e995)), true, false)
+	}
 	ids := genIDs(rng, sp.IDGen, sp.N)
 	world := genWorld(rng, ids, sp.Keys)
 	rng.Shuffle(len(world), func(i, j int) { world[i], world[j] = world[j], world[i] })
@@ -795,6 +811,13 @@ func (x *runner) runPrune(sp Spec) {
 	if res.Err != nil || res.Loop != nil || res.PdPanic != "" || res.Budget != nil || res.Aborted {
 		return
 	}
+	x.checkPruned(sp, b, api, res, must, cache, reported, undelivered, lim)
+}
+
+// checkPruned is the pruning clause after a completed load into cache: independent storage scan ==
+// cache content, cache overlap-free, the loader removed only what the callback reported.
+func (x *runner) checkPruned(sp Spec, b *backend, api string, res *loadResult, must map[uint64]item, cache *core.BasicCluster, reported, undelivered map[uint64]bool, lim int) {
+	r := x.r
 	r.Count("prune_regions_reported_by_callback", int64(len(reported)))
 	// storage scan (independent of the paging code) vs cache content
 	stored, err := b.rawRegions()
